@@ -40,13 +40,13 @@ def n2s(x):
     return canon.num(F(x))
 
 
-def gen_spec(rng):
+def gen_spec(rng, force_big=False):
     k = rng.randint(2, 5)
     names = ["A", "B", "C", "D", "E"][:k]
     rxns = []
     # profile "one big import written in the import direction": a single `--> X_e` exchange may import 1000, every other bound of every
     # exchange is small (the largest |bound| over all exchanges is then an upper bound)
-    big_import = rng.choice(names) if rng.random() < 0.2 else None
+    big_import = rng.choice(names) if (force_big or rng.random() < 0.2) else None
     for x in names:
         reactant = rng.random() < 0.5
         imp = rng.choice([0, 5, 10, 20, F(5, 2), 1000])
@@ -69,6 +69,8 @@ def gen_spec(rng):
         rxns.append({"id": f"R{i}", "st": {f"{a}_c": n2s(-rng.choice([1, 2])), f"{b}_c": n2s(rng.choice([1, 1, 2]))},
                      "lb": rng.choice(["0", "-1000"]), "ub": "1000", "rule": ""})
     need = rng.sample(names, rng.randint(1, min(3, k)))
+    if force_big and big_import not in need:
+        need[0] = big_import          # growth needs the one large import, far above every other bound of every exchange
     st = {f"{x}_c": n2s(-rng.choice([1, 1, 2, F(1, 2)])) for x in need}
     if rng.random() < 0.4:
         byp = rng.choice([x for x in names if x not in need] or names)
@@ -248,6 +250,11 @@ def check_minimal(case):
 
 
 def gen_case(rng):
+    if rng.random() < 0.06:
+        # a medium that has to import more through one `--> X_e` exchange than any other exchange bound allows
+        return {"kind": "minimal", "spec": gen_spec(rng, force_big=True), "min_objective_value": rng.choice(["50", "50", "100", "5"]),
+                "exports": rng.random() < 0.3, "minimize_components": rng.random() < 0.7, "open_exchanges": False,
+                "history": rng.choice(fbagen.HISTORIES)}
     spec = gen_spec(rng)
     exs = exchanges_of(spec)
     if rng.random() < 0.5:
